@@ -114,7 +114,7 @@ fn k_c03_image(depth: u8, region: u8) {
   kani::cover!(x == 8.0, "x = 8");
   let (h, dx, dy) = layer.hash_with_dxdy(0.0, 0.0);
   assert!(h < spec_n_hash(depth), "C03: hash_with_dxdy out of range");
-  let lo = -9.094947017729282e-13;   // -2^-40: "up to rounding"
+  let lo = c03_lo(depth);   // "up to rounding", see c03_lo
   assert!(dx >= lo && dx <= 1.0 && dy >= lo && dy <= 1.0, "C03: offsets not in [0, 1] (up to rounding)");
   let e = ref_excess(depth, h, x, y);
   assert!(e <= 1e-12, "C03: hash_with_dxdy returns a cell that does not contain the position");
@@ -137,7 +137,7 @@ fn k_c03_range(depth: u8, region: u8) {
   kani::cover!(x == 8.0, "x = 8");
   let (h, dx, dy) = layer.hash_with_dxdy(0.0, 0.0);
   assert!(h < spec_n_hash(depth), "C03: hash_with_dxdy out of range");
-  let lo = -9.094947017729282e-13;   // -2^-40: "up to rounding"
+  let lo = c03_lo(depth);   // "up to rounding", see c03_lo
   assert!(dx >= lo && dx <= 1.0 && dy >= lo && dy <= 1.0, "C03: offsets not in [0, 1] (up to rounding)");
 }
 
